@@ -35,10 +35,12 @@ EMPTY_IS_POSSIBLE = True
 EMPTINESS_SENSITIVE = {"first", "last", "first_mut", "last_mut", "get", "get_mut", "pop", "next", "next_back", "max", "min", "max_by_key", "min_by_key", "max_by", "min_by", "split_first", "split_last", "nth", "find", "position", "peek", "reduce", "checked_div", "checked_rem", "front", "back", "pop_front", "pop_back"}
 
 
-def ledger(ctx, taint, rule, scope=None):
+def ledger(ctx, taint, rule, scope=None, kinds=None):
     sinks = T.collect_sinks(taint, skip_fn=is_derived)
     if scope is not None:
         sinks = [s for s in sinks if scope(s.fn)]
+    if kinds is not None:
+        sinks = [s for s in sinks if kinds(s.kind)]
     reviewed = load_reviewed()
     stats = {"total": 0, "const": 0, "untainted": 0, "guarded": 0, "reviewed": 0, "open": 0}
     seen = {}
@@ -162,6 +164,15 @@ def run(ctx):
 
 
 # ------------------------------------------------------------------------------------ explicit panics
+    # the reviewed panic sites in the typed writers (tables/reviewed_panic_sites.json) are discharged by citing the layout laws: those
+    # laws are therefore obligations of THIS property too — an index that can leave its array makes write_at's `len - offset` panic
+    # (same rule instances as C01/index-bound, C01/dir-count, C16/write-at-window)
+    from rules import c01 as _c01b, c16 as _c16b
+    n_ib = _c01b.index_bound_sites(ctx, "C02/index-bound")
+    ctx.floor("C02/index-bound", "set_value_at call sites", n_ib, 6)
+    _c16b.rule_write_at_window(ctx, R="C02/write-at-window")
+
+
 def nearest_guard(b, o, block):
     """literal (atom, value) of the branch that immediately decides entering `block` (through unique predecessors)"""
     x = block
